@@ -140,7 +140,7 @@ class ContentSink:
 
     def get_field(self, I, i):
         if i not in self.children:
-            self.children[i] = ContentSink(self.owner, "%s.%d" % (self.label, i))
+            self.children[i] = ContentSink(self.owner, "%s.%s" % (self.label, i))
         return self.children[i]
 
     def set_field(self, I, i, v):
@@ -150,7 +150,7 @@ class ContentSink:
     def as_rc(self, I):
         if self.cell is None:
             ctx = DEFAULT_CTX[0]
-            self.cell = RcCell(LazyObj(KindVar(ctx.all_kinds, "inner"), ctx), origin="orig")
+            self.cell = RcCell(LazyObj(KindVar(ctx.all_kinds, "inner"), ctx), origin="inner")
         return self.cell
 
     # container-ish API
@@ -169,6 +169,23 @@ class ContentSink:
 
     def to_vec(self, I):
         return ContentSink(None, "copy")
+
+    def iter(self, I):
+        """unknown content: no element, or (at least) one element that is an arbitrary older cell"""
+        sink = self
+
+        class CIt(It):
+            n = 0
+
+            def next(self, I2):
+                if self.n >= 1:
+                    return none()
+                self.n += 1
+                if I2.run.choose(2, "content has an element") == 0:
+                    return none()
+                cell = sink.get_field(I2, ("elem", 0)).as_rc(I2)
+                return some(Ref(Box_(DEFAULT_CTX[0].mk_ref(cell), "elem"), ()))
+        return CIt()
 
 
 def describe_handle(v):
@@ -702,9 +719,55 @@ def _hm_get(I, f, a):
     return m.get(I, deref(I, a[1]))
 
 
+_hash_summaries = {}
+
+
+def _hash_key(I, key):
+    """HashMap/HashSet operations hash the key through the crate's own Hash impl.  The impl is interpreted
+    once per situation (is a mutable borrow of some cell live?) in a nested exploration on a key of unknown
+    kind; its possible panics are added to the current path (which itself continues: hashing has no other effect)."""
+    k = key
+    if not (isinstance(k, Agg) and k.adt.endswith("StackObjectRef")):
+        return
+    hk = [b for b in I.prog.bodies if b.endswith("StackObjectRef as std::hash::Hash>::hash")]
+    if len(hk) != 1:
+        return
+    live_mut = any(g.live and g.mut for g in I.guards)
+    ck = (id(I.prog), live_mut)
+    if ck not in _hash_summaries:
+        from interp import Interp as _Interp, explore as _explore
+        ctx = DEFAULT_CTX[0]
+        panics = set()
+        nruns = [0]
+        outer_models = I.models
+
+        def one(run):
+            I2 = _Interp(I.prog, run, outer_models)
+            if live_mut:
+                other = RcCell(LazyObj(KindVar(ctx.all_kinds, "borrowed"), ctx), origin="orig")
+                g = M.Guard(other, True)
+                other.mut = True
+                I2.guards.append(g)
+            cell = RcCell(LazyObj(KindVar(ctx.all_kinds, "key"), ctx), origin="orig")
+            I2.call(hk[0], [Ref(Box_(ctx.mk_ref(cell), "key"), ()), Ref(Box_(Opaque("hasher"), "hasher"), ())])
+            return None
+        for run, r, pe in _explore(one, max_runs=20000):
+            nruns[0] += 1
+            for p in run.panics:
+                panics.add((p[0], str(p[1])[:80]))
+            if pe is not None and pe.kind == "panic" and not run.panics:
+                panics.add(("panic", str(pe.info)[:80]))
+        _hash_summaries[ck] = (sorted(panics), nruns[0])
+    panics, n = _hash_summaries[ck]
+    I.run.event("key_hashed", n, len(panics))
+    for p in panics:
+        I.run.panics.append(("in_key_hash",) + p)
+
+
 @model("std::collections::HashMap::<K, V, S, A>::insert", "std::collections::HashSet::<T, S, A>::insert")
 def _hm_insert(I, f, a):
     m = deref(I, a[0])
+    _hash_key(I, a[1])
     if isinstance(a[0], Ref) and isinstance(a[0].box, M.CellBox):
         I.run.event("store_into", a[0].box.cell, "insert", tuple(describe_handle(x) for x in a[1:]))
     return m.insert(I, *a[1:])
@@ -1034,6 +1097,7 @@ class Ctx:
             else:
                 raise Unanalysable("unknown field Stack.%s (no role)" % n)
         state_fields = []
+        extra_scratch = {}
         proto_emitted = LazyBool("proto_emitted")
         for n in self.fields(self.state_adt):
             if n == "version":
@@ -1045,7 +1109,18 @@ class Ctx:
             elif n == "memo":
                 state_fields.append(memo)
             else:
-                raise Unanalysable("unknown field State.%s (no role)" % n)
+                # a field this analysis has no role for is treated as per-pickle scratch of unknown content
+                fty = [f["ty"] for f in self.prog.adts[self.state_adt]["variants"][0]["fields"] if f["name"] == n][0]
+                if fty == "bool":
+                    v = LazyBool("state." + n)
+                elif fty in INT_TYPES:
+                    v = Sym("state." + n, (), fty, attrs={"name": "state." + n})
+                elif fty.startswith("std::option::Option<") and fty[len("std::option::Option<"):-1] in INT_TYPES:
+                    v = LazyOption("state." + n, fty[len("std::option::Option<"):-1])
+                else:
+                    raise Unanalysable("unknown field State.%s: %s (no role, no generic abstraction)" % (n, fty))
+                extra_scratch[n] = v
+                state_fields.append(v)
         gfields = []
         muts = mutators if mutators is not None else AbsMutators(self)
         special = {
@@ -1070,6 +1145,7 @@ class Ctx:
         g = Agg(self.gen_adt, 0, gfields)
         self.last_special = special
         h = GenHandle(self, g, st, memo, out, muts, special, proto_emitted, ver)
+        h.extra_scratch = extra_scratch
         return h
 
 
@@ -1090,6 +1166,21 @@ class GenHandle:
 
     CONFIG = ("seed", "bufsize", "min_opcodes", "max_opcodes", "mutators", "mutation_rate", "unsafe_mutations",
               "allow_ext_opcodes", "allow_buffer_opcodes")
+
+    def extra_scratch_read_at_entry(self):
+        """unknown scratch fields of State whose entry value was inspected (read before being overwritten)"""
+        out = []
+        for n, v in getattr(self, "extra_scratch", {}).items():
+            if isinstance(v, LazyBool) and v.value is not None:
+                out.append(n)
+            elif isinstance(v, LazyOption) and v.chosen is not None:
+                out.append(n)
+        return out
+
+    def extra_scratch_unchanged(self):
+        st = self.g.fields[self.ctx.fields(self.ctx.gen_adt).index("state")]
+        names = self.ctx.fields(self.ctx.state_adt)
+        return [n for n, v in getattr(self, "extra_scratch", {}).items() if st.fields[names.index(n)] is v]
 
     def config_changes(self):
         """configuration fields whose value object was replaced during the run"""
@@ -1277,3 +1368,40 @@ class LazyOption:
 
     def get_field(self, I, i):
         return self.inner
+
+
+@model("<&'a std::collections::HashSet<T, S, A> as std::iter::IntoIterator>::into_iter", "std::collections::HashSet::<T, S, A>::iter")
+def _hs_into_iter(I, f, a):
+    m = deref(I, a[0])
+    I.run.event("hash_container_iterated", I.where())
+    if isinstance(m, ContentSink):
+        return m.iter(I)
+    if isinstance(m, MapObj):
+        return ListIt([kv[0] for kv in m.items], by_ref=True)
+    raise I.unanalysable("HashSet iteration over %r" % (m,))
+
+
+@model("<&'a std::collections::HashMap<K, V, S, A> as std::iter::IntoIterator>::into_iter", "std::collections::HashMap::<K, V, S, A>::iter")
+def _hmap_into_iter(I, f, a):
+    m = deref(I, a[0])
+    I.run.event("hash_container_iterated", I.where())
+    if isinstance(m, ContentSink):
+        inner = m.iter(I)
+        other = m.get_field(I, ("vals", 0))
+
+        class PIt(It):
+            def next(self, I2):
+                r = inner.next(I2)
+                if not is_some(r):
+                    return r
+                v = DEFAULT_CTX[0].mk_ref(other.as_rc(I2))
+                return some(Agg("tuple", None, [r.fields[0], Ref(Box_(v, "val"), ())]))
+        return PIt()
+    if isinstance(m, MapObj):
+        lst = [Agg("tuple", None, [Ref(Box_(kv[0], "k"), ()), Ref(Box_(kv[1], "v"), ())]) for kv in m.items if len(kv) == 2]
+        return ListIt(lst, by_ref=False)
+    raise I.unanalysable("HashMap iteration over %r" % (m,))
+
+
+MODELS["<std::collections::hash_set::Iter<'a, K> as std::iter::Iterator>::next"] = MODELS["<std::slice::Iter<'a, T> as std::iter::Iterator>::next"]
+MODELS["<std::collections::hash_map::Iter<'a, K, V> as std::iter::Iterator>::next"] = MODELS["<std::slice::Iter<'a, T> as std::iter::Iterator>::next"]
